@@ -536,7 +536,7 @@ def run(ctx):
             ctx.count("corner_histories")
             if n <= 3:
                 ctx.sample({"history": hist, "outcomes": [r["outcome"] for r in obs["results"]]})
-    total = ctx.scale(3000, 48000) // ctx.nshards
+    total = ctx.scale(3000, 800000) // ctx.nshards
     for i in range(total):
         long_run = i % 100 == 7
         hist = gen_history(ctx.rng, long_run)  # ctx.rng is seeded per shard
